@@ -178,3 +178,203 @@ Proof.
   destruct 1; intros Hn; try reflexivity; try discriminate Hn.
   unfold is_nil in Hn; cbn in Hn. destruct (nk_unsigned k); discriminate Hn.
 Qed.
+
+(** * One key on one value *)
+Section OneKey.
+Variables k' k : str.
+Hypothesis Hk : equal_fold k' k = true.
+
+Lemma map_lookup_spec kvs :
+  Forall (fun kv => (exists s, fst kv = VStr false s) /\ wf_doc (snd kv)) kvs ->
+  match map_lookup_fold k' kvs with
+  | Some x => field k (abs_kvs kvs) = Some (abs x) /\ wf_doc x
+  | None => field k (abs_kvs kvs) = None
+  end.
+Proof.
+  induction 1 as [|[kk v] r [[s Hs] Hv] Hr IH]; [reflexivity|].
+  cbn [fst snd] in Hs, Hv. subst kk.
+  cbn [map_lookup_fold key_string abs_kvs field].
+  rewrite (equal_fold_same s k' k Hk).
+  destruct (equal_fold s k); [split; [reflexivity | exact Hv] | exact IH].
+Qed.
+
+Lemma struct_lookup_spec fs :
+  Forall (fun f : str * bool * bool * gv => wf_doc (snd f)) fs ->
+  match struct_lookup_fold k' fs with
+  | Some x => field k (abs_fields fs) = Some (abs x) /\ wf_doc x
+  | None => field k (abs_fields fs) = None
+  end.
+Proof.
+  induction 1 as [|[[[n e] i] v] r Hv Hr IH]; [reflexivity|].
+  cbn [snd] in Hv.
+  cbn [struct_lookup_fold abs_fields].
+  destruct e; cbn [andb]; [|exact IH].
+  cbn [field]. rewrite (equal_fold_same n k' k Hk).
+  destruct (equal_fold n k); [split; [reflexivity | exact Hv] | exact IH].
+Qed.
+
+(** an element of an array, seen through its slot *)
+Lemma field_by_name_map b kt vt n kvs :
+  get_field_by_name k' (mkRv b (VMap kt vt n kvs)) = option_map convert_number (map_lookup_fold k' kvs).
+Proof. destruct b; [reflexivity|]. destruct kvs; reflexivity. Qed.
+
+Lemma field_by_name_struct b fs :
+  get_field_by_name k' (mkRv b (VStruct fs)) = option_map convert_unless_string (struct_lookup_fold k' fs).
+Proof. destruct b; reflexivity. Qed.
+
+Lemma field_by_name_other b x :
+  wf_doc x -> match x with VMap _ _ _ _ | VStruct _ => False | _ => True end ->
+  get_field_by_name k' (mkRv b x) = None.
+Proof.
+  intros Hx Hno. unfold get_field_by_name.
+  destruct (is_empty_value (mkRv b x)); [reflexivity|].
+  destruct Hx; try destruct Hno; destruct b; try reflexivity.
+  all: unfold deref1, rkind; cbn; destruct (nk_unsigned k0); reflexivity.
+Qed.
+Lemma field_by_name_spec b x :
+  wf_doc x ->
+  match get_field_by_name k' (mkRv b x) with
+  | Some y => field_of k (abs x) = Some (abs y) /\ wf_doc y
+  | None => field_of k (abs x) = None
+  end.
+Proof.
+  intros Hx.
+  destruct x;
+    try (rewrite (field_by_name_other b _ Hx I);
+         try match goal with |- context [abs (VFloat _ _ ?f)] => destruct f end; reflexivity).
+  - inversion Hx as [| | | | | | | |kt0 vt0 kvs0 Hkvs|]; subst.
+    rewrite field_by_name_map, abs_map. cbn [field_of].
+    pose proof (map_lookup_spec kvs Hkvs) as Hl.
+    destruct (map_lookup_fold k' kvs) as [y|]; cbn [option_map]; [|exact Hl].
+    destruct Hl as [Hf Hy]. destruct (convert_number_wf y Hy) as [Hw Ha].
+    rewrite Ha. split; assumption.
+  - inversion Hx as [| | | | | | | | |fs0 Hfs]; subst.
+    rewrite field_by_name_struct, abs_struct. cbn [field_of].
+    pose proof (struct_lookup_spec fields Hfs) as Hl.
+    destruct (struct_lookup_fold k' fields) as [y|]; cbn [option_map]; [|exact Hl].
+    destruct Hl as [Hf Hy]. destruct (convert_unless_string_wf y Hy) as [Hw Ha].
+    rewrite Ha. split; assumption.
+Qed.
+
+Lemma filter_map_spec t xs :
+  Forall wf_doc xs ->
+  map abs (filter_map (fun x => get_field_by_name k' (slot t x)) xs) = collect (field_of k) (map abs xs)
+  /\ Forall wf_doc (filter_map (fun x => get_field_by_name k' (slot t x)) xs).
+Proof.
+  induction 1 as [|x r Hx Hr [IHa IHw]]; [split; [reflexivity | constructor]|].
+  cbn [filter_map map collect]. change (slot t x) with (mkRv (ety_eqb t EAny) x).
+  pose proof (field_by_name_spec (ety_eqb t EAny) x Hx) as Hf.
+  destruct (get_field_by_name k' (mkRv (ety_eqb t EAny) x)) as [y|].
+  - destruct Hf as [Hf Hy]. rewrite Hf. cbn [map]. rewrite IHa. split; [reflexivity | constructor; assumption].
+  - rewrite Hf. split; assumption.
+Qed.
+
+(** the array branch of getValuesByName *)
+Definition project (t : ety) (xs : list gv) : outcome gv :=
+  match xs with
+  | [] => Err EKeyNotFound
+  | x0 :: _ =>
+    match rkind (deref1 (slot t x0)) with
+    | KdStruct | KdMap =>
+      match filter_map (fun x => get_field_by_name k' (slot t x)) xs with
+      | [] => Err EKeyNotFound
+      | slc => Ok (VSlice EAny false slc)
+      end
+    | _ => Err EKeyNotFound
+    end
+  end.
+
+Lemma do_ident_slice t xs : do_ident k' (VSlice t false xs) = project t xs.
+Proof. destruct xs; reflexivity. Qed.
+
+Lemma do_ident_array t xs : do_ident k' (VArray t xs) = project t xs.
+Proof. destruct xs; reflexivity. Qed.
+
+Lemma slot_kind t x : not_ptr x -> rkind (deref1 (slot t x)) = kind_of x.
+Proof.
+  intros Hx. unfold slot. destruct (ety_eqb t EAny); [reflexivity|].
+  destruct x; try reflexivity; try (destruct Hx).
+  destruct k0; reflexivity.
+Qed.
+
+Lemma collect_none xs :
+  existsb (has_field k) xs = false -> collect (field_of k) xs = [].
+Proof.
+  induction xs as [|x r IH]; [reflexivity|]. cbn [existsb collect]. unfold has_field at 1.
+  destruct (field_of k x); cbn [orb]; [discriminate | exact IH].
+Qed.
+
+Definition step_ok (d : gv) (o : outcome gv) : Prop :=
+  match o with
+  | Ok v => lookup1 k (abs d) = Found (abs v) /\ wf_doc v
+  | Err EKeyNotFound => lookup1 k (abs d) = KeyNotFound
+  | _ => False
+  end.
+
+Lemma project_spec t xs (d : gv) :
+  abs d = JArr (map abs xs) ->
+  Forall wf_doc xs ->
+  num_headed_mix k (JArr (map abs xs)) = false ->
+  step_ok d (project t xs).
+Proof.
+  intros Hd Hxs Hmix. unfold step_ok. rewrite Hd. clear Hd d.
+  destruct xs as [|x0 r]; [reflexivity|].
+  destruct (filter_map_spec t (x0 :: r) Hxs) as [Ha Hw].
+  inversion Hxs as [|x0' r' Hx0 Hr]; subst.
+  unfold project. rewrite (slot_kind t x0 (wf_not_ptr x0 Hx0)).
+  destruct Hx0; try (destruct k0); try reflexivity.
+  - (* a decimal first: the evaluator goes on, the hypothesis says it finds nothing *)
+    cbn [kind_of]. cbn [map abs num_headed_mix] in Hmix.
+    cbn [map abs collect field_of] in Ha. rewrite (collect_none _ Hmix) in Ha.
+    destruct (filter_map (fun x => get_field_by_name k' (slot t x)) (VDec d :: r)); [reflexivity | discriminate Ha].
+  - cbn [kind_of]. cbn [map] in Ha |- *. rewrite abs_map in Ha |- *. cbn [lookup1]. rewrite <- Ha.
+    destruct (filter_map (fun x => get_field_by_name k' (slot t x)) (VMap kt vt false kvs :: r)) as [|y ys];
+      [reflexivity | split; [reflexivity | constructor; exact Hw]].
+  - cbn [kind_of]. cbn [map] in Ha |- *. rewrite abs_struct in Ha |- *. cbn [lookup1]. rewrite <- Ha.
+    destruct (filter_map (fun x => get_field_by_name k' (slot t x)) (VStruct fs :: r)) as [|y ys];
+      [reflexivity | split; [reflexivity | constructor; exact Hw]].
+Qed.
+
+Lemma scalar_spec d :
+  wf_doc d -> d <> VNil ->
+  match d with VSlice _ _ _ | VArray _ _ | VMap _ _ _ _ | VStruct _ => False | _ => True end ->
+  do_ident k' d = Err EKeyNotFound /\ lookup1 k (abs d) = KeyNotFound.
+Proof.
+  intros Hd Hnn Hsc.
+  destruct Hd; try (destruct Hsc); try (exfalso; apply Hnn; reflexivity).
+  all: split; [|reflexivity].
+  all: unfold do_ident; rewrite deref1_not_ptr by exact I; cbn [rv_v value_of];
+       unfold get_values_by_name;
+       destruct (is_empty_value _); [reflexivity|];
+       rewrite deref1_not_ptr by exact I; reflexivity.
+Qed.
+
+(** the step: one key of the query on one well-formed, non-null value *)
+Lemma do_ident_spec d :
+  wf_doc d -> d <> VNil -> num_headed_mix k (abs d) = false -> step_ok d (do_ident k' d).
+Proof.
+  intros Hd Hnn Hmix.
+  destruct d;
+    try (destruct (scalar_spec _ Hd Hnn I) as [Hm Hs]; unfold step_ok; rewrite Hm; exact Hs).
+  - inversion Hd as [| | | | | |t0 xs0 Hxs| | |]; subst.
+    rewrite do_ident_slice. apply project_spec; [reflexivity | exact Hxs | exact Hmix].
+  - inversion Hd as [| | | | | | |t0 xs0 Hxs| |]; subst.
+    rewrite do_ident_array. apply project_spec; [reflexivity | exact Hxs | exact Hmix].
+  - inversion Hd as [| | | | | | | |kt0 vt0 kvs0 Hkvs|]; subst.
+    unfold step_ok. rewrite abs_map. cbn [lookup1].
+    change (do_ident k' (VMap kt vt false kvs)) with
+      (match map_lookup_fold k' kvs with Some x => Ok (convert_unless_string x) | None => Err EKeyNotFound end).
+    pose proof (map_lookup_spec kvs Hkvs) as Hl.
+    destruct (map_lookup_fold k' kvs) as [y|]; [|rewrite Hl; reflexivity].
+    destruct Hl as [Hf Hy]. destruct (convert_unless_string_wf y Hy) as [Hw Ha].
+    rewrite Hf, Ha. split; [reflexivity | exact Hw].
+  - inversion Hd as [| | | | | | | | |fs0 Hfs]; subst.
+    unfold step_ok. rewrite abs_struct. cbn [lookup1].
+    change (do_ident k' (VStruct fields)) with
+      (match option_map convert_unless_string (struct_lookup_fold k' fields) with Some out => Ok out | None => Err EKeyNotFound end).
+    pose proof (struct_lookup_spec fields Hfs) as Hl.
+    destruct (struct_lookup_fold k' fields) as [y|]; cbn [option_map]; [|rewrite Hl; reflexivity].
+    destruct Hl as [Hf Hy]. destruct (convert_unless_string_wf y Hy) as [Hw Ha].
+    rewrite Hf, Ha. split; [reflexivity | exact Hw].
+Qed.
+End OneKey.
